@@ -2021,6 +2021,10 @@ class StridedInterval:
 
         assert type(shift_amount) is StridedInterval
 
+        if shift_amount._reversed:
+            # the stored bounds of a lazily reversed amount are those of the value before its bytes were swapped
+            shift_amount = shift_amount._reverse()
+
         if shift_amount.is_integer:
             return (round(self.bits, shift_amount.lower_bound), round(self.bits, shift_amount.lower_bound))
         if shift_amount.is_empty:
